@@ -796,4 +796,159 @@ theorem C08_ternary_unrolls_matter :
     ternaryCall (ternaryInit .auto none false 5) false [1, 3 / 8, 3 / 8, 5 / 16] [] := by
   decide +kernel
 
+
+/-! ## 9. layer objects used several times (QActivation, `activation=` / `kernel_quantizer=` slots,
+keras `Activation(q)`): the k-th use of ONE layer object, after ANY history of earlier calls in
+either phase, is the quantizer called in the phase of THAT call with the draws of THAT call — so every
+clause above holds per call of a history.  A layer whose `call` sits behind a per-signature trace
+cache does not have this property (`*_traced_*`): that is the behaviour of tf_keras'
+`Model.predict` (recorded finding `C08-predict-phase-frozen`) and of any `@tf.function` put on a
+layer's `call`. -/
+
+/-- the eager layer is transparent: whatever the cache, whatever the history -/
+theorem C08_layer_eager_history {α β γ : Type} (q : Bool → α → β → γ) (cache : LCache β)
+    (hist : List (LCall α β)) :
+    layerRun qactivationTraced q cache hist = hist.map fun c => q c.phase c.x c.u := by
+  induction hist generalizing cache with
+  | nil => rfl
+  | cons c rest ih => simp [layerRun, layerStep, qactivationTraced, ih] <;> exact ih _
+
+/-- the k-th use equals a fresh object used once -/
+theorem C08_layer_history_kth {α β γ : Type} (q : Bool → α → β → γ) (cache : LCache β)
+    (hist : List (LCall α β)) (i : ℕ) (c : LCall α β) (hc : hist[i]? = some c) :
+    (layerRun qactivationTraced q cache hist)[i]? = some (q c.phase c.x c.u) := by
+  rw [C08_layer_eager_history, List.getElem?_map, hc]; rfl
+
+/-- inference clause along a history: if the quantizer equals `qd` at phase 0, every call of the
+    history made at phase 0 returns `qd x`, whatever was called before (in particular training calls
+    on the same input signature) -/
+theorem C08_layer_history_inference {α β γ : Type} (q : Bool → α → β → γ) (qd : α → γ)
+    (hinf : ∀ x u, q false x u = qd x) (cache : LCache β) (hist : List (LCall α β)) (i : ℕ)
+    (c : LCall α β) (hc : hist[i]? = some c) (hp : c.phase = false) :
+    (layerRun qactivationTraced q cache hist)[i]? = some (qd c.x) := by
+  rw [C08_layer_history_kth q cache hist i c hc, hp, hinf]
+
+theorem C08_qactivation_bits_history_inference (c : Stoch.BitsCfg) (cache : LCache ℚ)
+    (hist : List (LCall ℚ ℚ)) (i : ℕ) (k : LCall ℚ ℚ) (hk : hist[i]? = some k) (hp : k.phase = false)
+    (phase' : Bool) (u' : ℚ) :
+    (layerRun qactivationTraced (quantizedBits c) cache hist)[i]? =
+      some (quantizedBits { c with stoch := false } phase' k.x u') :=
+  C08_layer_history_inference _ (fun x => quantizedBits { c with stoch := false } phase' x u')
+    (fun x u => C08_bits_inference c x u phase' u') cache hist i k hk hp
+
+theorem C08_qactivation_linear_history_inference (c : Stoch.BitsCfg) (cache : LCache ℚ)
+    (hist : List (LCall ℚ ℚ)) (i : ℕ) (k : LCall ℚ ℚ) (hk : hist[i]? = some k) (hp : k.phase = false)
+    (phase' : Bool) (u' : ℚ) :
+    (layerRun qactivationTraced (quantizedLinear c) cache hist)[i]? =
+      some (quantizedLinear { c with stoch := false } phase' k.x u') :=
+  C08_layer_history_inference _ (fun x => quantizedLinear { c with stoch := false } phase' x u')
+    (fun x u => C08_linear_inference c x u phase' u') cache hist i k hk hp
+
+theorem C08_qactivation_relu_history_inference (π : ℚ) (c : Stoch.ReluCfg) (cache : LCache (ℚ × ℚ))
+    (hist : List (LCall ℚ (ℚ × ℚ))) (i : ℕ) (k : LCall ℚ (ℚ × ℚ)) (hk : hist[i]? = some k)
+    (hp : k.phase = false) (phase' : Bool) (π' v1 v2 : ℚ) :
+    (layerRun qactivationTraced (fun ph x (u : ℚ × ℚ) => quantizedRelu π c ph x u.1 u.2) cache hist)[i]? =
+      some (quantizedRelu π' { c with stoch := false } phase' k.x v1 v2) :=
+  C08_layer_history_inference _ (fun x => quantizedRelu π' { c with stoch := false } phase' x v1 v2)
+    (fun x u => C08_relu_inference π c x u.1 u.2 phase' π' v1 v2) cache hist i k hk hp
+
+/-- power-of-two classes (every option combination); the input of a call is `(x, sqrt oracle)` -/
+theorem C08_qactivation_po2_history_inference (c : Po2Cfg) (cache : LCache ℚ)
+    (hist : List (LCall (ℚ × ℚ) ℚ)) (i : ℕ) (k : LCall (ℚ × ℚ) ℚ) (hk : hist[i]? = some k)
+    (hp : k.phase = false) (phase' : Bool) (u' : ℚ) :
+    (layerRun qactivationTraced (fun ph (x : ℚ × ℚ) u => quantizedPo2 c ph x.1 x.2 u) cache hist)[i]? =
+      some (quantizedPo2 { c with stoch := false } phase' k.x.1 k.x.2 u') :=
+  C08_layer_history_inference _ (fun x => quantizedPo2 { c with stoch := false } phase' x.1 x.2 u')
+    (fun x u => C08_po2_inference c x.1 x.2 u phase' u') cache hist i k hk hp
+
+/-- stochastic_binary behind a layer: every phase-0 call of a history is `binary` -/
+theorem C08_qactivation_stochastic_binary_history_inference (α : Alpha) (T : ℚ) (rs : Bool)
+    (cache : LCache (List ℚ × List ℚ)) (hist : List (LCall (List ℚ) (List ℚ × List ℚ))) (i : ℕ)
+    (k : LCall (List ℚ) (List ℚ × List ℚ)) (hk : hist[i]? = some k) (hp : k.phase = false)
+    (phase' : Bool) (ms u1 u2 : List ℚ) :
+    (layerRun qactivationTraced
+        (fun ph xs (u : List ℚ × List ℚ) => stochasticBinaryCall (stochasticBinaryInit α T rs) ph xs u.1 u.2)
+        cache hist)[i]? =
+      some (binaryCall (binaryInit false α false) phase' k.x ms u1 u2) :=
+  C08_layer_history_inference _ (fun xs => binaryCall (binaryInit false α false) phase' xs ms u1 u2)
+    (fun xs u => C08_stochastic_binary_ctor_inference α T rs xs u.1 u.2 phase' ms u1 u2) cache hist i k hk hp
+
+/-- training clauses along a history (quantized_bits): every call of the history made at phase 1
+    returns one of the two adjacent codes, and rounds up exactly for the draws `u ≤ frac` OF THAT
+    CALL — also when the same input signature was used at phase 0 before -/
+theorem C08_qactivation_bits_history_adjacent (c : Stoch.BitsCfg) (h : BitsOK c) (cache : LCache ℚ)
+    (hist : List (LCall ℚ ℚ)) (i : ℕ) (k : LCall ℚ ℚ) (hk : hist[i]? = some k) (hp : k.phase = true) :
+    (layerRun qactivationTraced (quantizedBits c) cache hist)[i]? =
+        some ((bitsLat c).below (bitsLevel c k.x)) ∨
+    (layerRun qactivationTraced (quantizedBits c) cache hist)[i]? =
+        some ((bitsLat c).above (bitsLevel c k.x)) := by
+  rw [C08_layer_history_kth _ cache hist i k hk, hp]
+  rcases C08_bits_adjacent c h k.x k.u with h1 | h1
+  · left; rw [h1]
+  · right; rw [h1]
+
+theorem C08_qactivation_bits_history_up_iff (c : Stoch.BitsCfg) (h : BitsOK c) (hα : c.alpha ≠ 0)
+    (cache : LCache ℚ) (hist : List (LCall ℚ ℚ)) (i : ℕ) (k : LCall ℚ ℚ) (hk : hist[i]? = some k)
+    (hp : k.phase = true)
+    (hx : (bitsLat c).below (bitsLevel c k.x) ≠ (bitsLat c).above (bitsLevel c k.x)) :
+    (layerRun qactivationTraced (quantizedBits c) cache hist)[i]? =
+        some ((bitsLat c).above (bitsLevel c k.x)) ↔ k.u ≤ (bitsLat c).frac (bitsLevel c k.x) := by
+  rw [C08_layer_history_kth _ cache hist i k hk, hp, Option.some_inj]
+  exact C08_bits_up_iff c h hα k.x k.u hx
+
+/-! ### 9b. a `call` behind a trace cache (`@tf.function` on `call`, Keras' `predict_function`) -/
+
+/-- what still holds (the provable part): the first use of an input signature is the quantizer in
+    the phase of that call -/
+theorem C08_layer_traced_first_use_partial {α β γ : Type} (q : Bool → α → β → γ) (cache : LCache β)
+    (c : LCall α β) (h : cache.lookup c.sig = none) :
+    (layerStep true q cache c).1 = q c.phase c.x c.u := by
+  simp [layerStep, h]
+
+/-- ... and every later use of that signature replays the phase and the draws of the FIRST one: the
+    phase and the draws of the call itself are not read -/
+theorem C08_layer_traced_replay {α β γ : Type} (q : Bool → α → β → γ) (cache : LCache β)
+    (c : LCall α β) (ph : Bool) (u : β) (h : cache.lookup c.sig = some (ph, u)) :
+    (layerStep true q cache c).1 = q ph c.x u ∧ (layerStep true q cache c).2 = cache := by
+  simp [layerStep, h]
+
+/-- first use at phase 0, then training: the traced layer is DETERMINISTIC in training — for every
+    configuration, every input and every draw it returns the round-to-nearest value (so its mean is
+    not the input) -/
+theorem C08_layer_traced_training_frozen (c : Stoch.BitsCfg) (s : ℕ) (x x' u0 u : ℚ) :
+    layerRun true (quantizedBits c) [] [⟨false, s, x, u0⟩, ⟨true, s, x', u⟩] =
+      [quantizedBits { c with stoch := false } false x 0,
+       quantizedBits { c with stoch := false } false x' 0] := by
+  simp only [layerRun, layerStep, List.lookup, if_true, beq_self_eq_true]
+  rw [C08_bits_inference c x u0 false 0, C08_bits_inference c x' u0 false 0]
+
+/-- first use at phase 1, then inference: the traced layer keeps rounding stochastically at phase 0
+    with the draws recorded in the trace — for every configuration, input and draw -/
+theorem C08_layer_traced_inference_frozen (c : Stoch.BitsCfg) (s : ℕ) (x x' u0 u : ℚ) :
+    layerRun true (quantizedBits c) [] [⟨true, s, x, u0⟩, ⟨false, s, x', u⟩] =
+      [quantizedBits c true x u0, quantizedBits c true x' u0] := by
+  simp [layerRun, layerStep, List.lookup]
+
+/-- witness: `quantized_bits(4, 0, 1, use_stochastic_rounding=True)` behind a traced `call`, first
+    used in training with the draw 0, then at phase 0 on `5/16`: returns `3/8`; the round-to-nearest
+    configuration returns `1/4` (tie 2.5 to even).  The eager layer returns `1/4`
+    (`C08_qactivation_bits_history_inference`). -/
+theorem C08_layer_traced_inference_counterexample :
+    let c : Stoch.BitsCfg := { bits := 4, integer := 0, symmetric := true, keepNegative := true,
+                               alpha := 1, stoch := true }
+    (layerRun kerasPredictTraced (quantizedBits c) [] [⟨true, 0, 5 / 16, 0⟩, ⟨false, 0, 5 / 16, 0⟩])[1]?
+        = some (3 / 8) ∧
+    quantizedBits { c with stoch := false } false (5 / 16) 0 = 1 / 4 ∧
+    (layerRun qactivationTraced (quantizedBits c) [] [⟨true, 0, 5 / 16, 0⟩, ⟨false, 0, 5 / 16, 0⟩])[1]?
+        = some (1 / 4) := by
+  decide +kernel
+
+/-- a new input signature is traced afresh: the frozen phase is per signature (why "a new input shape
+    after the switch hides it") -/
+theorem C08_layer_traced_new_signature (c : Stoch.BitsCfg) (s s' : ℕ) (hs : s' ≠ s) (x x' u0 u : ℚ) :
+    layerRun true (quantizedBits c) [] [⟨true, s, x, u0⟩, ⟨false, s', x', u⟩] =
+      [quantizedBits c true x u0, quantizedBits c false x' u] := by
+  have h : (s' == s) = false := by simpa using hs
+  simp [layerRun, layerStep, List.lookup, h]
+
 end QKV.Props.C08
